@@ -582,6 +582,9 @@ Proof. induction l; cbn; auto. Qed.
 Lemma prefix_app a b x : prefix a b -> prefix a (b ++ x).
 Proof. revert b. induction a as [|y a IH]; intros b H; [exact I|]. destruct b as [|z b]; cbn in *; [contradiction|]. destruct H; split; auto. Qed.
 
+Lemma phase_eq_hello p : p = PHello \/ p <> PHello.
+Proof. destruct p; auto; right; discriminate. Qed.
+
 Section PopProof.
   Variable sig_ok : nat -> nat -> sigdata -> nat -> bool.
   Variable fin_ok : option nat -> list nat -> nat -> bool.
@@ -609,7 +612,7 @@ Section PopProof.
 
   Lemma step_not_hello s m : ph s <> PHello -> ph (step sig_ok fin_ok c s m) <> PHello.
   Proof.
-    intros H. unfold step. destruct (ph s) eqn:P; try contradiction; rewrite <- ?P;
+    intros H. unfold step. destruct (dtls_ignored c s m); [exact H|]. destruct (ph s) eqn:P; try contradiction; rewrite <- ?P;
       repeat match goal with
              | |- context [match ?x with _ => _ end] => destruct x
              end; cbn; try discriminate; try (rewrite P; discriminate).
@@ -630,7 +633,7 @@ Section PopProof.
 
   Lemma step_inv s m : Inv s -> Inv (step sig_ok fin_ok c s m).
   Proof.
-    intros [NH HI]. split; [apply step_not_hello; exact NH|]. unfold InvB at 1. unfold step.
+    intros [NH HI]. split; [apply step_not_hello; exact NH|]. unfold step. destruct (dtls_ignored c s m); [exact HI|]. unfold InvB at 1.
     destruct (ph s) eqn:P; try exact HI; try (exfalso; apply NH; reflexivity);
       try (destruct m; try (intros X; discriminate X)).
     - (* PWaitCert, MCertificate *)
@@ -737,19 +740,19 @@ Section PopProof.
 
   Lemma step_resumed s m : ph s <> PHello -> resumed (step sig_ok fin_ok c s m) = resumed s.
   Proof.
-    intros H. unfold step. destruct (ph s) eqn:P; try contradiction;
+    intros H. unfold step. destruct (dtls_ignored c s m); [reflexivity|]. destruct (ph s) eqn:P; try contradiction;
       repeat match goal with
              | |- context [match ?x with _ => _ end] => destruct x
              end; reflexivity.
   Qed.
 
   Lemma alive_step s m : alive (ph (step sig_ok fin_ok c s m)) = true -> alive (ph s) = true.
-  Proof. unfold step. destruct (ph s) eqn:P; try reflexivity. intros X. rewrite P in X. exact X. Qed.
+  Proof. unfold step. destruct (dtls_ignored c s m); [auto|]. destruct (ph s) eqn:P; try reflexivity. intros X. rewrite P in X. exact X. Qed.
 
   Lemma stepH s m : InvH s -> InvH (step sig_ok fin_ok c s m).
   Proof.
     intros HI A. destruct (HI (alive_step _ _ A)) as [[P [E R]] | [[NH [b R]] | I]].
-    - unfold step in *. rewrite P in *. destruct m; try discriminate A.
+    - unfold step in *. destruct (dtls_ignored c s m) eqn:DI; [left; auto|]. rewrite P in *. destruct m; try discriminate A.
       destruct (p_role c); [discriminate A|]. destruct hit as [b|].
       + right. left. cbn. split; [discriminate | eauto].
       + right. right. split; [cbn; discriminate|]. intros _. cbn [adv ph leaf pops tr]. rewrite E.
@@ -778,18 +781,30 @@ Section PopProof.
     induction ms as [|m r IH]; intros s H; [reflexivity|]. cbn. rewrite IH; [apply step_resumed; exact H | apply step_not_hello; exact H].
   Qed.
 
-  (* the resumed session is the one the lookup of the ClientHello's offer answered with - nothing else sets the field *)
-  Theorem resumed_only_by_lookup : forall ms b, resumed (run_hello sig_ok fin_ok c ms) = Some b ->
-    p_role c = VServer /\ exists rest, ms = MClientHello (Some b) :: rest.
+  (* the resumed session is the one the lookup of a ClientHello's offer answered with - nothing else sets the field *)
+  Lemma step_resumed_cases s m : resumed (step sig_ok fin_ok c s m) = resumed s \/
+    (exists b, m = MClientHello (Some b) /\ p_role c = VServer /\ resumed (step sig_ok fin_ok c s m) = Some b).
   Proof.
-    intros ms b. unfold run_hello. destruct ms as [|m rest]; [cbn; discriminate|]. cbn [fold_left].
-    assert (forall s1, ph s1 <> PHello -> resumed s1 = None -> resumed (fold_left (step sig_ok fin_ok c) rest s1) = Some b -> False) as K.
-    { intros s1 H1 H2 H3. rewrite fold_resumed in H3 by exact H1. rewrite H2 in H3. discriminate. }
-    unfold step at 2. cbn [ph init_hello].
-    destruct m; try (intros H; exfalso; eapply K; [| | exact H]; [cbn; discriminate | reflexivity]).
-    destruct (p_role c) eqn:R; [intros H; exfalso; eapply K; [| | exact H]; [cbn; discriminate | reflexivity]|].
-    destruct hit as [b'|]; [|intros H; exfalso; eapply K; [| | exact H]; [cbn; discriminate | reflexivity]].
-    intros H. rewrite fold_resumed in H by (cbn; discriminate). cbn in H. inversion H; subst. split; [reflexivity | eauto].
+    destruct (phase_eq_hello (ph s)) as [P | P]; [|left; apply step_resumed; exact P].
+    unfold step. destruct (dtls_ignored c s m); [left; reflexivity|]. rewrite P.
+    destruct m; try (left; reflexivity). destruct (p_role c) eqn:R; [left; reflexivity|].
+    destruct hit as [b|]; [right; exists b; auto | left; reflexivity].
+  Qed.
+
+  Lemma fold_resumed_origin ms b : forall s, resumed (fold_left (step sig_ok fin_ok c) ms s) = Some b ->
+    resumed s = Some b \/ (In (MClientHello (Some b)) ms /\ p_role c = VServer).
+  Proof.
+    induction ms as [|m r IH]; intros s H; [left; exact H|]. cbn [fold_left] in H.
+    destruct (IH _ H) as [X | [X R]]; [|right; split; [right; exact X | exact R]].
+    destruct (step_resumed_cases s m) as [E | [b' [-> [R E]]]].
+    - left. rewrite <- E. exact X.
+    - rewrite E in X. inversion X; subst. right. split; [left; reflexivity | exact R].
+  Qed.
+
+  Theorem resumed_only_by_lookup : forall ms b, resumed (run_hello sig_ok fin_ok c ms) = Some b ->
+    p_role c = VServer /\ In (MClientHello (Some b)) ms.
+  Proof.
+    intros ms b H. destruct (fold_resumed_origin ms b init_hello H) as [X | [X R]]; [cbn in X; discriminate | auto].
   Qed.
 End PopProof.
 
@@ -841,7 +856,7 @@ Proof. repeat split; reflexivity. Qed.
 (* a complete run of each mode reaches PDone (so [pop_on_done] is not vacuous) *)
 Definition okv := vd1 0 a_PS_CERT_AUTH_PASS 0 true.
 Definition cfg0 (ver : version) (r : vrole) (k : kexmode) :=
-  {| p_ver := ver; p_role := r; p_kex := k; p_cb := None; p_offered := [4%nat]; p_cr := 1%nat; p_sr := 2%nat; p_fix_ske_alg := true |}.
+  {| p_ver := ver; p_role := r; p_kex := k; p_cb := None; p_offered := [4%nat]; p_cr := 1%nat; p_sr := 2%nat; p_fix_ske_alg := true; p_dtls := false |}.
 Example legal_runs_reach_done :
   ph (run (fun _ _ _ _ => true) (fun _ _ _ => true) (cfg0 V12 VClient KDhe) [] [MCertificate 7 okv; MServerKeyExchange 3 4 9; MServerHelloDone; MFinished 5]) = PDone /\
   ph (run (fun _ _ _ _ => true) (fun _ _ _ => true) (cfg0 V12 VClient KRsa) [] [MCertificate 7 okv; MServerHelloDone; MFinished 5]) = PDone /\
